@@ -7,6 +7,7 @@ observable effect (frames relayed to which neighbours, adjacency picture, per-or
 validated by TLC against the same actions (NetLocalTrace.tla)."""
 import vlib
 import netlocal
+import nodetrace
 
 C06_CLASSES = {"stale", "seen", "accepted_changed", "accepted_same", "dup_notice", "self_same_epoch",
                "self_older_epoch", "self_newer_epoch", "self_we_are_duplicate", "empty_origin", "late_init", "end"}
@@ -34,9 +35,17 @@ def run(tier, seed, replay=None):
                         "real node departs from NetLocal.tla at a step of class '%s' in %s: input %s observed %s" % (
                             d["class"], ",".join(fields), last.get("u"), last.get("obs")),
                         {"trace_line": d["line"], "segment": d["segment"]})
+    # hook-event level: the same real-node runs, plus the meshes built by the repository's own tests, against NodeTrace.tla
+    nt = nodetrace.validate(wd, [out["hooks"], nodetrace.repo_test_traces(wd)], timeout=2400)
+    for d in nt["diffs"]:
+        if d["event"] in ("ru_seen", "ru_apply", "ru_dupnotice", "flood", "mk_update", "ru_self"):
+            v.violation("C06:%s:%s" % (d["event"], "+".join(d["what"])),
+                        "node event '%s' is not a behaviour of NetCore/NodeTrace: %s; event %s" % (d["event"], ",".join(d["what"]), str(d["context"][-1])[:600]),
+                        {"instance": d["instance"], "context": d["context"]})
     cov = {
         "states": r.distinct, "transitions": r.generated,
-        "traces_validated_against_impl": out["segments"],
+        "traces_validated_against_impl": out["segments"] + nt["instances"],
+        "node_trace_lines": nt["lines"], "node_instances": nt["instances"],
         "evaluations": out["steps"], "distinct_nontrivial": out["harness"]["distinct"],
         "rule": "seeded adversarial update sequences (remote/neighbour/self origins, replays, stale and newer sequence numbers, "
                 "reused ids, suspected-duplicate notices, forged forwarders) injected by 3 scripted peers into a real node; "
